@@ -132,6 +132,10 @@ def handle (j : Json) : Except String Verdict := do
     let mut c03Judged := false          -- the C03 judgement ran on at least one build that returned arrays
     let mut c16 := "pass"
     let mut c18 := "pass"
+    -- C05 on histories: an operation that ADDS rows is accepted by the implementation although the model refuses it — the
+    -- model refuses exactly the rows the specification gives no meaning to (Props/C05.lean, umbrella and two-sided forms), so
+    -- an unrepresentable value was taken in (seeded c05i: after a build a non-nullable primitive column accepted nulls)
+    let mut c05 := "pass"
     let mut sig := ""
     let mut why := ""
     let mut nbuilt := 0
@@ -219,6 +223,8 @@ def handle (j : Json) : Except String Verdict := do
                 sig := s!"hist/C18/{opName op}/after-builds={if nbuilt == 0 then "0" else "N"}"
                 why := s!"op #{i}: blamed field {repr (ia.lookup "field")} not among {repr blamed}"
         | none => pure ()
+      if !diverged && res.cls == "err" && cls == "ok" && !isBuild && !sawFailure then
+        c05 := "fail"
       if !diverged && res.cls != cls then
         agree := false
         diverged := true
@@ -317,6 +323,6 @@ def handle (j : Json) : Except String Verdict := do
     -- history without a build that returned arrays
     if !(c03 == "fail" || c03Judged) then c03 := "na"
     let tags := if c03 == "na" then (if fsb0 then "c03-na:fsb0" else "c03-na:no-build") :: tags else tags
-    return { agree := agree, spec := [("C10", c10), ("C03", c03), ("C16", c16), ("C18", c18)], tags := tags, sig := sig, why := why }
+    return { agree := agree, spec := [("C10", c10), ("C03", c03), ("C16", c16), ("C18", c18), ("C05", c05)], tags := tags, sig := sig, why := why }
 
 end Driver.Suites.Hist
